@@ -12,7 +12,7 @@ from ..pyvc.source import Program, module_ast
 from ..rtc import c19_new_loaders as drv
 
 CONTAINER_NAMES = {"pvl.parser": {"m", "module", "agg"}, "pvl.encoder": {"module", "group"}}
-ALLOWED = {"append", "pop", "items", "keys", "errors"}
+ALLOWED = {"append", "pop", "items", "keys", "errors", "clear", "extend"}   # clear/extend: PDSLabelEncoder._replace_value (C13)
 
 
 def interface_section():
